@@ -7,7 +7,13 @@ import (
 )
 
 // UnwindStack implements wazevo.unwindStack.
-func UnwindStack(sp, _, top uintptr, returnAddresses []uintptr) []uintptr {
+func UnwindStack(sp, fp, top uintptr, returnAddresses []uintptr) []uintptr {
+	return UnwindStackUpTo(sp, fp, top, returnAddresses, 0)
+}
+
+// UnwindStackUpTo implements wazevo.unwindStackUpTo: it is UnwindStack which stops as soon as
+// returnAddresses has limit entries, where zero means no limit.
+func UnwindStackUpTo(sp, _, top uintptr, returnAddresses []uintptr, limit int) []uintptr {
 	l := int(top - sp)
 
 	var stackBuf []byte
@@ -55,6 +61,9 @@ func UnwindStack(sp, _, top uintptr, returnAddresses []uintptr) []uintptr {
 		sizeOfArgRet := binary.LittleEndian.Uint64(stackBuf[i:])
 		i += 8 + sizeOfArgRet
 		returnAddresses = append(returnAddresses, uintptr(retAddr))
+		if limit > 0 && len(returnAddresses) >= limit {
+			break
+		}
 	}
 	return returnAddresses
 }
